@@ -492,7 +492,8 @@ class Fn:
                 r = ("local", n, name or "_%d" % n)
             elif len(alts) == 1:
                 r = alts[0]
-                if name and r[0] in ("call", "bin", "agg", "phi", "cast", "un", "field", "index", "icall", "var"):
+                # `iter` is the hidden local of the `for` desugaring, not a user variable
+                if name and name != "iter" and r[0] in ("call", "bin", "agg", "phi", "cast", "un", "field", "index", "icall", "var"):
                     r = ("var", name, r)
             else:
                 # de-duplicate
